@@ -207,11 +207,13 @@ def concrete_playback(dst, target, hname, kspec):
     except subprocess.TimeoutExpired:
         return None
     out = p.stdout + p.stderr
-    m = re.search(r'```\s*\n(.*?)```', out, re.S)
-    if m:
-        return m.group(1)
-    m = re.search(r'(#\[test\]\s*fn kani_concrete_playback.*?\n\})', out, re.S)
-    return m.group(1) if m else None
+    # one generated test per failing check AND per satisfied cover: keep those that are not cover witnesses
+    blocks = re.findall(r'((?:///[^\n]*\n)+\s*#\[test\]\s*fn kani_concrete_playback.*?\n\})', out, re.S)
+    if not blocks:
+        m = re.search(r'```\s*\n(.*?)```', out, re.S)
+        return m.group(1) if m else None
+    real = [b for b in blocks if '`cover`' not in b and 'cover condition' not in b]
+    return '\n\n'.join((real or blocks)[:3])
 
 
 def run_for_property(prop, mine, tier, work):
